@@ -171,7 +171,9 @@ def proof_gate(ctx):
         res["problems"].append("Props/%s.v does not exist" % ctx.prop)
         return res
     src = strip_comments(open(pf).read())
-    thms = re.findall(r"^\s*(?:Theorem|Lemma|Corollary)\s+(\w+)", src, re.M)
+    # the pinned property theorems are the ones named cNN_...; helper lemmas used only by an Example /
+    # instance are covered transitively by the Print Assumptions of the theorem that uses them
+    thms = [t for t in re.findall(r"^\s*(?:Theorem|Lemma|Corollary)\s+(\w+)", src, re.M) if re.match(r"c\d+_", t)]
     res["theorems"] = thms
     res["obligations"] = len(thms)
     with open(os.path.join(VERIF, "work", ".build.lock"), "w") as lk:
@@ -187,7 +189,8 @@ def proof_gate(ctx):
         res["problems"].append("coqc Props/%s.v failed:\n%s" % (ctx.prop, r.stdout[-2500:]))
         return res
     out = r.stdout
-    n_pa = len(re.findall(r"^\s*Print\s+Assumptions\s+(\w+)", src, re.M))
+    pa_names = set(re.findall(r"^\s*Print\s+Assumptions\s+(\w+)", src, re.M))
+    n_pa = len([t for t in thms if t in pa_names])
     closed = out.count("Closed under the global context")
     axioms = set()
     in_ax = False
@@ -217,6 +220,28 @@ def proof_gate(ctx):
     for p in pins:
         if p not in thms:
             res["problems"].append("pinned theorem %s missing from Props/%s.v" % (p, ctx.prop))
+    # thorough tier: independent re-check of the compiled property file and everything it depends on
+    if ctx.tier == "thorough" and not res["problems"]:
+        r = sh(["timeout", "3000", "coqchk", "-o", "-silent", "-Q", ".", "Similar", "Similar.Props.%s" % ctx.prop],
+               cwd=os.path.join(VERIF, "coq"))
+        res["coqchk"] = r.stdout[-1500:]
+        if r.returncode != 0:
+            res["problems"].append("coqchk failed:\n" + r.stdout[-1500:])
+        else:
+            m = re.search(r"\* Axioms:(.*?)\n\s*\n\* Constants/Inductives relying on type-in-type:(.*?)\n\s*\n"
+                          r"\* Constants/Inductives relying on unsafe \(co\)fixpoints:(.*?)\n\s*\n"
+                          r"\* Inductives whose positivity is assumed:(.*?)\n", r.stdout, re.S)
+            if not m:
+                res["problems"].append("coqchk summary not recognised")
+            else:
+                ax = [a.strip() for a in m.group(1).split("\n") if a.strip() and a.strip() != "<none>"]
+                res["coqchk_axioms"] = ax
+                for a in ax:
+                    if not any(a.endswith(x.split(".")[-1]) for x in allow):
+                        res["problems"].append("coqchk reports axiom %s outside the allowlist" % a)
+                for g in (2, 3, 4):
+                    if m.group(g).strip() != "<none>":
+                        res["problems"].append("coqchk: unsafe feature in use: " + m.group(g).strip()[:200])
     if not res["problems"]:
         res["discharged"] = len(thms)
     res["closed"] = closed
@@ -228,9 +253,14 @@ def shard(lines, k):
     n = len(lines)
     if n == 0:
         return []
-    k = max(1, min(k, (n + 199) // 200))
-    size = (n + k - 1) // k
-    return [lines[i:i + size] for i in range(0, n, size)]
+    # heavy cases (long sequences) are spread over all processes, light ones in chunks of >= 200;
+    # round-robin so that one process does not get all the expensive cases
+    total = sum(len(l) for l in lines)
+    if total / n > 250:
+        k = max(1, min(k, n))
+    else:
+        k = max(1, min(k, (n + 199) // 200))
+    return [lines[i::k] for i in range(k)]
 
 
 def run_driver(ctx, mode, case_files, impl_files=None, dbg=False):
@@ -259,6 +289,7 @@ def run_batch(ctx, lines, dbg=False, want_model=True, want_check=True, cap=20):
     ctx.batch_no += 1
     base = os.path.join(ctx.work, "b%d" % ctx.batch_no)
     chunks = shard(lines, NPROC)
+    nchunks = len(chunks)
     cfs = []
     for i, ch in enumerate(chunks):
         cf = "%s.%d.cases" % (base, i)
@@ -273,25 +304,25 @@ def run_batch(ctx, lines, dbg=False, want_model=True, want_check=True, cap=20):
     if len(impl) != len(lines):
         raise RuntimeError("harness returned %d lines for %d cases (rc=%s): %s" % (len(impl), len(lines), r.returncode, r.stderr[-500:]))
     ifs = []
-    pos = 0
     for i, ch in enumerate(chunks):
         f = "%s.%d.impl" % (base, i)
         with open(f, "w") as fh:
-            fh.write("\n".join(impl[pos:pos + len(ch)]) + "\n")
-        pos += len(ch)
+            fh.write("\n".join(impl[i::nchunks]) + "\n")
         ifs.append(f)
+
+    def unshard(outs):
+        res = [None] * len(lines)
+        for i, o in enumerate(outs):
+            if len(o) != len(chunks[i]):
+                raise RuntimeError("driver returned %d lines for a shard of %d cases" % (len(o), len(chunks[i])))
+            res[i::nchunks] = o
+        return res
     model = []
     verd = []
     if want_model:
-        for o in run_driver(ctx, "model", cfs, dbg=dbg):
-            model += o
-        if len(model) != len(lines):
-            raise RuntimeError("model driver returned %d lines for %d cases" % (len(model), len(lines)))
+        model = unshard(run_driver(ctx, "model", cfs, dbg=dbg))
     if want_check:
-        for o in run_driver(ctx, "check", cfs, ifs):
-            verd += o
-        if len(verd) != len(lines):
-            raise RuntimeError("check driver returned %d lines for %d cases" % (len(verd), len(lines)))
+        verd = unshard(run_driver(ctx, "check", cfs, ifs))
     for f in cfs + ifs + [allf]:
         os.remove(f)
     return impl, model, verd
@@ -377,6 +408,17 @@ def attribute_known(ctx, findings):
                     and set(f["clauses"]) <= set(fd.get("clauses", "").split(",")):
                 hit = fd
                 break
+            if fd.get("class") == "clause-name" and set(f["clauses"]) <= set(fd.get("clauses", "").split(",")):
+                # the verified checker itself classifies the failure (e.g. right by key order, wrong by ratio order)
+                k = fd.get("id", "?")
+                ent = ctx.known.setdefault(k, [0, None, fd])
+                ent[0] += 1
+                if ent[1] is None or len(f["case"]) < len(ent[1]["case"]):
+                    ent[1] = f
+                hit = "direct"
+                break
+        if hit == "direct":
+            continue
         if hit:
             cand.append((f, hit))
         else:
@@ -579,7 +621,7 @@ def finish(ctx, gate, spec):
             violations.append("VIOLATION property=%s replay=%s no-failing-input-found" % (ctx.prop, p))
     for k, (cnt, wit, fd) in sorted(ctx.known.items()):
         print("KNOWN-FINDING: property=%s %s (%s): %d case(s) this run, e.g. %s -> %s" % (
-            ctx.prop, k, fd.get("what", fd.get("site", "")), cnt, wit["case"], wit["impl"]))
+            ctx.prop, k, fd.get("what", fd.get("site", "")), cnt, wit["case"][:300], wit["impl"][:300]))
     write_evidence(ctx, gate, spec, len(violations))
     for v in violations:
         print(v)
@@ -607,6 +649,7 @@ def write_evidence(ctx, gate, spec, nviol):
             "rustc/cargo, ocamlopt, python3",
         ],
         theorems=gate["theorems"],
+        coqchk_axioms=gate.get("coqchk_axioms", "not run (quick tier)"),
         theorem_status=spec.get("theorem_status", {}),
         generators=spec.get("generators", ""),
         input_distribution=ctx.dist,
